@@ -1,5 +1,7 @@
 import TempestVerif.Drv.Util
 import TempestVerif.Model.Kernel
+import TempestVerif.Model.KernelRun
+import TempestVerif.Drv.C03Modes
 /-
   line-protocol handlers of property C03 (Float only: the kernels use sqrt/log/exp)
 
@@ -13,6 +15,16 @@ import TempestVerif.Model.Kernel
         -> `<walker 0 result>|<walker 1 result>|... <new sigmas>`  (walker results as for kstep.F, blanks replaced by `/`)
            or `IndexError` when an assignment is not a valid mode index
   Matrices / tapes: rows separated by `;`, entries by `,`.  Shapes are validated (`bad-op` otherwise).
+
+    c03run.F sample=<token> d=<n_dim> mus= chols= invcovs= nus=  (as krun.F)  beta=<f> per=<nats> refl=<nats> nsteps=<nat> nmax=<nat>
+             us=<n rows> xs=<n rows> assign=<n nats> ls=<n floats>
+             gs=<T rows of n> rs=<T rows of n> lps=<T rows of n> zs=<T blocks of n rows, blocks separated by |> xps=<T blocks>
+        the WHOLE call `parallel_mcmc(..., sample=…)` of Model.KernelRun (constructor, run loop with the T tapes as fuel, stopping
+        rule, return values)
+        -> `<done|outOfTape|indexError> <iteration> <n_calls> <efficiency> <acceptance> <final sigmas> <final u rows> <final x rows>
+            <final logl> <final assignments> <sigma_0> <P>` followed by P tokens, one per executed pass, fields separated by `/`:
+           `<sigmas used>/<alphas>/<accept bits>/<in_bounds bits>/<new u rows>/<current_acceptance>/<weighted_sigma>/
+            <adaptive_steps>/<stop 0|1>/<adapted sigmas>/<the value int(...) is applied to>`
 -/
 namespace Drv.C03
 open Drv Model.Kernel
@@ -115,11 +127,84 @@ def adapt (args : List (String × String)) : Option String := do
   | .tpcn => some (showFloat (tpcnAdapt sigma iter acc sigma0))
   | .rwm => some (showFloat (rwmAdapt sigma iter acc sigma0))
 
+/-! ### the run loop (`c03run.F`) -/
+section RunLoop
+open Model.KernelRun
+
+def showRows (m : List (List Float)) : String :=
+  if m.isEmpty then "-" else ";".intercalate (m.map (showList showFloat))
+
+def zipDraws : List Float → List (List Float) → List (List Float) → List Float → List Float → List (Draw Float)
+  | g :: gs, z :: zs, xp :: xps, lp :: lps, r :: rs => { g, z, xp, lp, r } :: zipDraws gs zs xps lps rs
+  | _, _, _, _, _ => []
+
+def zipTapes : List (List Float) → List (List (List Float)) → List (List (List Float)) → List (List Float) → List (List Float)
+    → List (List (Draw Float))
+  | g :: gs, z :: zs, xp :: xps, lp :: lps, r :: rs => zipDraws g z xp lp r :: zipTapes gs zs xps lps rs
+  | _, _, _, _, _ => []
+
+def showRec (c : Config Float) (r : IterRec Float) : String :=
+  "/".intercalate [showList showFloat r.pre.sigmas, showList showFloat (r.outs.map (·.alpha)),
+    showList showBool (r.outs.map (·.accept)), showList showBool (r.outs.map (·.inb)), showRows r.post.u,
+    showFloat r.curAcc, showFloat r.wsigma, showFloat r.steps, showBool r.stop, showList showFloat r.post.sigmas,
+    showFloat (boundedSteps c.nSteps c.nDim c.nMax r.curAcc r.wsigma (Model.KernelRun.sigma0 (α := Float) c.nDim))]
+
+def c03run (args : List (String × String)) : Option String := do
+  let sample ← getArg args "sample"
+  let d ← (getArg args "d").bind String.toNat?
+  let mus ← mArg args "mus"
+  let chols ← (getArg args "chols").bind parseMats?
+  let invcovs ← (getArg args "invcovs").bind parseMats?
+  let nus ← vArg args "nus"
+  let beta ← fArg args "beta"
+  let per ← (getArg args "per").bind parseNatList?
+  let refl ← (getArg args "refl").bind parseNatList?
+  let nSteps ← (getArg args "nsteps").bind String.toNat?
+  let nMax ← (getArg args "nmax").bind String.toNat?
+  let us ← mArg args "us"
+  let xs ← mArg args "xs"
+  let assign ← (getArg args "assign").bind parseNatList?
+  let ls ← vArg args "ls"
+  let gs ← mArg args "gs"
+  let rs ← mArg args "rs"
+  let lps ← mArg args "lps"
+  let zs ← (getArg args "zs").bind parseMats?
+  let xps ← (getArg args "xps").bind parseMats?
+  let K := mus.length
+  let n := us.length
+  let T := gs.length
+  if d == 0 || K == 0 || n == 0 || chols.length != K || invcovs.length != K || nus.length != K
+      || !mus.all (·.length == d) || !chols.all (square d) || !invcovs.all (square d)
+      || xs.length != n || assign.length != n || ls.length != n || !us.all (·.length == d) || !xs.all (·.length == d)
+      || rs.length != T || lps.length != T || zs.length != T || xps.length != T
+      || !gs.all (·.length == n) || !rs.all (·.length == n) || !lps.all (·.length == n)
+      || !zs.all (fun b => b.length == n && b.all (·.length == d))
+      || !xps.all (fun b => b.length == n && b.all (·.length == d))
+      || !per.all (· < d) || !refl.all (· < d) then none
+  else
+    let modes : List (Mode Float) :=
+      (List.zip (List.zip mus chols) (List.zip invcovs nus)).map fun p =>
+        { mu := p.1.1, chol := p.1.2, invcov := p.2.1, nu := p.2.2 }
+    let a : Args Float := { u := us, x := xs, logl := ls, assign, beta, modes, nSteps, nMax, per, refl }
+    let (c, o) := parallelMcmc sample a (zipTapes gs zs xps lps rs)
+    let res := result c o.final
+    let st := match o.status with
+      | .done => "done"
+      | .outOfTape => "outOfTape"
+      | .indexError => "indexError"
+    let head := [st, toString res.iteration, toString res.nCalls, showFloat res.efficiency, showFloat res.acceptance,
+      showList showFloat o.final.sigmas, showRows res.u, showRows res.x, showList showFloat res.logl,
+      showList toString o.final.assign, showFloat (Model.KernelRun.sigma0 (α := Float) c.nDim), toString o.recs.length]
+    some (" ".intercalate (head ++ o.recs.map (showRec c)))
+
+end RunLoop
+
 def handle (cmd : String) (args : List (String × String)) : Option String :=
   match cmd with
   | "kstep.F" => some ((kstep args).getD "bad-op")
   | "adapt.F" => some ((adapt args).getD "bad-op")
   | "krun.F" => some ((krun args).getD "bad-op")
-  | _ => none
+  | "c03run.F" => some ((c03run args).getD "bad-op")
+  | _ => Drv.C03Modes.handle cmd args
 
 end Drv.C03
